@@ -9,7 +9,7 @@ SPEC = {
     "sub": "c19",
     "lean_modules": ["TrustVerif.Props.C19"],
     "tiers": {
-        "quick": {"cases": 900, "extra": {"barrier": 300}},
+        "quick": {"cases": 800, "extra": {"barrier": 300}},
         "thorough": {"cases": 15000, "extra": {"stress": 40, "barrier": 3000}},
     },
     "disagreement_is_violation": True,
@@ -18,7 +18,10 @@ SPEC = {
             "unknown token, expired through the clock hook) x ~25 API operations with generated path strings (existing "
             "entries incl. paths through links, new names, attack strings, decorations) and write_enabled on/off; every "
             "5th case is a protocol sequence (open/apply with honest, stale and wrong expected versions, disk rewritten "
-            "by the harness to emulate stale unlocked reads, delete/create/rename in between); non-trivial = the tree "
+            "by the harness to emulate stale unlocked reads, delete/create/rename in between, folder renames to derived "
+            "names); after every rename/delete that changed the tree a follow-up open or stale save on every path ever "
+            "opened (tracked-document bookkeeping); 11 scripted corpus cases (witnesses of repaired/open defects and of "
+            "seeded mutants); non-trivial = the tree "
             "changed or a path went through a link; distinct = by hash of the case's operation lines",
     "trusted_base": [
         "Lean 4.33.0 kernel; axioms per theorem listed under 'theorems'",
